@@ -228,7 +228,7 @@ def run_b58acc(case):
                     n += 1
             if depth < maxlen:
                 level = [s + c for s in level for c in R.B58]
-        res.bulk("short-string: impl verdict == ref verdict (reject)", n, n)
+        res.bulk("short-string: impl verdict == ref verdict (reject)", n, 0)  # too short to carry a checksum: trivial
         return res
     s, kind = b58_strings_cached(case["seed"])[case["name"]]
     name, i = case["name"], case.get("i")
@@ -244,15 +244,19 @@ def run_b58acc(case):
                     vio(res, f"typed-rejects-honest/{nm}/{name}", "b58acc", case, repr(r), "accepted", f"{nm} rejects an honest string")
                 else:
                     res.ok("honest accepted (typed)")
-        n = 0
+        n = n0 = 0
         for c in R.B58 + NON_ALPHABET:
             if c == s[i]:
                 continue
             m = s[:i] + c + s[i + 1 :]
             sub = "non-alphabet-char" if c in NON_ALPHABET else "single-substitution"
             if acc_compare(res, case, m, raw_decode_base58, sub, typed):
-                n += 1
+                if c in NON_ALPHABET:
+                    n0 += 1
+                else:
+                    n += 1
         res.bulk("single substitution: impl verdict == ref verdict", n, n)
+        res.bulk("non-alphabet character: rejected", n0, 0)  # never reaches the checksum test: trivial
         return res
     if t == "double":
         n = 0
@@ -790,7 +794,8 @@ def engines(tier, seed):
             "alternatives + 4 non-alphabet look-alikes; all double substitutions of the 2 short strings (thorough: also of 4 real addresses/WIF); every bit flip "
             "of payload+checksum and 11 mis-constructed checksums; every Base58 string of length <= 3 (thorough 4). impl accepts <=> reference checksum "
             "accepts, payloads equal; typed parsers (address_to_script_pubkey, TxOut.to_address, PrivateKey.parse, HD*.parse) accept => checksum ok. "
-            "Non-trivial = every mutated string (all distinct by construction)",
+            "Non-trivial = mutated string over the Base58 alphabet (reaches the checksum comparison; distinct by construction); short strings and "
+            "non-alphabet substitutions are counted as trivial",
         ),
         Engine(
             "wif", gen_wif, run_wif, kind="E1",
